@@ -14,6 +14,7 @@ require (
 	github.com/sdcio/schema-server v0.0.30
 	github.com/sdcio/sdc-protos v0.0.39
 	github.com/sirupsen/logrus v1.9.3
+	google.golang.org/grpc v1.70.0
 	google.golang.org/protobuf v1.36.5
 	pgregory.net/rapid v1.3.0
 )
@@ -80,7 +81,6 @@ require (
 	golang.org/x/text v0.21.0 // indirect
 	golang.org/x/time v0.8.0 // indirect
 	google.golang.org/genproto/googleapis/rpc v0.0.0-20250106144421-5f5ef82da422 // indirect
-	google.golang.org/grpc v1.70.0 // indirect
 	gopkg.in/evanphx/json-patch.v4 v4.12.0 // indirect
 	gopkg.in/inf.v0 v0.9.1 // indirect
 	gopkg.in/yaml.v2 v2.4.0 // indirect
